@@ -39,6 +39,8 @@ pub struct World {
     pub internals: Vec<NodeId>,
     /// resources related to an entity (pool -> its resources and pool unit, validator -> XRD, LSU, claim NFT ...)
     pub affinity: BTreeMap<NodeId, Vec<ResourceAddress>>,
+    /// resources created by the world with AllowAll roles (mint / burn / recall / freeze ... all succeed)
+    pub my_resources: BTreeSet<ResourceAddress>,
     /// owner badges held by account 0: proofs of these are created when signing as owner
     pub badges: Vec<(ResourceAddress, Option<Vec<NonFungibleLocalId>>)>,
     pub proxy_pkg: PackageAddress,
@@ -163,6 +165,7 @@ impl World {
             resources: vec![],
             internals: vec![],
             affinity: BTreeMap::new(),
+            my_resources: BTreeSet::new(),
             badges: vec![],
             proxy_pkg,
             proxy: FAUCET, // replaced below
@@ -194,6 +197,7 @@ impl World {
             let r = w.run(shard, "create_fungible", m, vec![])?;
             let a = r.expect_commit(true).new_resource_addresses()[0];
             w.fungibles.push(a);
+            w.my_resources.insert(a);
             Some(a)
         };
         let f18 = mk_f(&mut w, shard, 18, true, Some(Decimal::from(1_000_000u64 + rng.below(1000))), owner.clone());
@@ -217,6 +221,7 @@ impl World {
             let r = w.run(shard, "create_non_fungible", m.try_deposit_entire_worktop_or_abort(a0, None).build(), vec![])?;
             let a = r.expect_commit(true).new_resource_addresses()[0];
             w.nfs.push((a, t));
+            w.my_resources.insert(a);
             w.known_ids.insert(a, ids);
             Some(a)
         };
@@ -526,7 +531,11 @@ impl World {
         let code = include_bytes!("/repo/radix-engine/assets/faucet.wasm").to_vec();
         if let Ok(def) = manifest_decode::<ManifestPackageDefinition>(include_bytes!("/repo/radix-engine/assets/faucet.rpd")) {
             if let Ok(def) = def.try_into_typed() {
-                w.run(shard, "publish_package", b().publish_package_advanced(None, code, def, metadata_init!("name" => "fz-package".to_string(), updatable;), OwnerRole::Fixed(k0.rule())).build(), vec![]);
+                if let Some(r) = w.run(shard, "publish_package", b().publish_package_advanced(None, code, def, metadata_init!("name" => "fz-package".to_string(), updatable;), OwnerRole::Fixed(k0.rule())).build(), vec![]) {
+                    if let Some(p) = r.expect_commit(true).new_package_addresses().first() {
+                        w.affinity.insert(*p.as_node_id(), vec![XRD]);
+                    }
+                }
             }
         }
 
